@@ -372,10 +372,80 @@ Definition spec_scan (sequ : list Z) (direction offset minimum : Z) (rl : option
   let sorted := sorted_le (map loc_key out) in
   [b2z (sorted && matches want_ge); b2z (length want_ge =? length want_gt)%nat; b2z (sorted && matches want_gt)].
 
+(* ---------- decidable specification of the gap clause (C15_gaps), evaluated on find_all_orfs outputs ---------- *)
+(* number of record positions of the location [o] that lie inside the gene [c] *)
+Definition shared (o c : loc) : Z := zlen (filter (fun x => in_loc x c) (positions o)).
+(* the record positions of an intergenic area (start may be negative: window over the origin) *)
+Definition area_positions (n : Z) (a : Z * Z) : list Z := map (fun y => y mod n) (zrange (fst a) (snd a - fst a)).
+(* inside the searched part of the record *)
+Definition in_searched (n : Z) (area : option loc) (x : Z) : bool :=
+  match area with None => (0 <=? x) && (x <? n) | Some l => in_loc x l end.
+
+Fixpoint starts_sortedb (genes : list (Z * Z)) : bool :=
+  match genes with
+  | [] => true
+  | g :: r => forallb (fun h => fst g <=? fst h) r && starts_sortedb r
+  end.
+
+(* the look-up helper returns every gene that overlaps the part (false: class FC15a area_misses_enclosing_gene) *)
+Definition helper_complete (cds : list loc) (p : part) : bool :=
+  forallb (fun c => negb (overlap c [p]) || existsb (loc_eqb c) (cds_within cds p)) cds.
+(* no gene reaches into both parts of an origin-spanning area (false: class FC15b origin_gene_padding_window) *)
+Definition no_gene_in_both (cds : list loc) (p1 p2 : part) : bool :=
+  forallb (fun c => negb (overlap c [p1] && overlap c [p2])) cds.
+
+(* well-formed input: a record with its genes ordered by start; the area is absent, one part inside the record,
+   or the two parts [s, n) [0, e) with 0 < e <= s < n *)
+Definition gaps_wf (n : Z) (cds : list loc) (area : option loc) (min_length max_overlap : Z) : bool :=
+  (0 <? n) && (0 <=? min_length) && (0 <=? max_overlap) && starts_sortedb (map gene_span cds) &&
+  match area with
+  | None => true
+  | Some [p] => (0 <=? ps p) && (ps p <=? pe p) && (pe p <=? n)
+  | Some [p1; p2] => (pe p1 =? n) && (ps p2 =? 0) && (0 <? pe p2) && (pe p2 <=? ps p1) && (ps p1 <? n)
+  | Some _ => false
+  end.
+(* the guard of C15_gaps: well-formed and outside the two recorded classes *)
+Definition gaps_guard (n : Z) (cds : list loc) (area : option loc) (min_length max_overlap : Z) : bool :=
+  gaps_wf n cds area min_length max_overlap &&
+  match area with
+  | Some [p] => helper_complete cds p
+  | Some [p1; p2] => helper_complete cds p1 && helper_complete cds p2 && no_gene_in_both cds p1 p2
+  | _ => true
+  end.
+(* which recorded class an input outside the guard belongs to: 1 = FC15a, 2 = FC15b, 0 = neither *)
+Definition gaps_class (cds : list loc) (area : option loc) : Z :=
+  match area with
+  | Some [p] => if helper_complete cds p then 0 else 1
+  | Some [p1; p2] => if helper_complete cds p1 && helper_complete cds p2
+                     then (if no_gene_in_both cds p1 p2 then 0 else 2) else 1
+  | _ => 0
+  end.
+
+Definition acgtb (c : Z) : bool := existsb (Z.eqb c) [65; 67; 71; 84; 97; 99; 103; 116].
+(* the protein of an ORF text: its codons without the final stop codon translated one by one, first residue M *)
+Definition orf_protein (text : list Z) : list Z :=
+  match translate false (firstn (length text - 3) text) with [] => [] | _ :: r => 77 :: r end.
+
+Definition feature_ok (g : list Z) (cds : list loc) (area : option loc) (max_overlap : Z) (f : feature) : bool :=
+  forallb (fun c => shared (floc f) c <=? max_overlap) cds &&
+  forallb (in_searched (zlen g) area) (positions (floc f)) &&
+  zl_eqb (ftrans f) (orf_protein (extract g (floc f))).
+(* [spec_ok; guard; class; genome is ACGT/acgt] *)
+Definition spec_gaps (g : list Z) (cds : list loc) (area : option loc) (min_length max_overlap : Z)
+                     (out : list feature) : list Z :=
+  [b2z (forallb (feature_ok g cds area max_overlap) out);
+   b2z (gaps_guard (zlen g) cds area min_length max_overlap && forallb acgtb g);
+   gaps_class cds area; b2z (gaps_wf (zlen g) cds area min_length max_overlap)].
+
 (* ---------- encoding ---------- *)
 Definition dGene : dec (Z * Z) := dPair dZ dZ.
 Definition dScan := dPair (dPair (dList dZ) (dPair dZ dZ)) (dPair dZ (dOpt dZ)).
 Definition eFeature (f : feature) : list Z := eLoc (floc f) ++ eList (fun c => [c]) (flabel f) ++ eList (fun c => [c]) (ftrans f).
+Definition dFeature : dec feature := fun l =>
+  match dPair dLoc (dPair (dList dZ) (dList dZ)) l with
+  | Some ((lo, (la, tr)), r) => Some (mkFeature lo la tr, r)
+  | None => None
+  end.
 Definition run_C15 (fn : Z) (l : list Z) : list Z :=
   match fn with
   | 1 => match dScan l with
@@ -390,6 +460,9 @@ Definition run_C15 (fn : Z) (l : list Z) : list Z :=
          | Some ((g, cds, (area, (ml, ov))), []) =>
            eRes (eList eFeature) (find_all_orfs g cds area ml ov)
          | _ => bad_input end
+  | 12 => match dPair (dPair (dPair (dList dZ) (dList dLoc)) (dPair (dOpt dLoc) (dPair dZ dZ))) (dList dFeature) l with
+          | Some (((g, cds, (area, (ml, ov))), out), []) => spec_gaps g cds area ml ov out
+          | _ => bad_input end
   | 11 => match dPair dScan (dList dLoc) l with
           | Some (((sequ, (direction, offset), (minimum, rl)), out), []) =>
             spec_scan sequ direction offset minimum rl out
